@@ -83,7 +83,10 @@ MUTANTS += [
 MUTANTS += [
  dict(prop='C13', name='append_slice without the final update_checksum', expect='sdt::Sdt::append_slice',
       edits=[('src/sdt.rs', "        self.data.extend_from_slice(data);\n        self.update_checksum();", "        self.data.extend_from_slice(data);")]),
- dict(prop='C13', name='write_bytes bounds compares against len()+1', expect='sdt::Sdt::write',
+ dict(prop='C13', name='write_bytes truncates a write that would end past the table instead of refusing it', expect='sdt::Sdt::write',
+      edits=[('src/sdt.rs', "        assert!(offset + data.len() <= self.data.len());\n        self.data.as_mut_slice()[offset..offset + data.len()].copy_from_slice(data);",
+              "        let end = core::cmp::min(offset + data.len(), self.data.len());\n        assert!(offset <= end);\n        self.data.as_mut_slice()[offset..end].copy_from_slice(&data[..end - offset]);")]),
+ dict(prop='ALL', name='benign: write_bytes assertion one byte too generous - the slice bound of the copy still refuses the same writes before anything is modified', expect=None,
       edits=[('src/sdt.rs', "assert!(offset + data.len() <= self.data.len());", "assert!(offset + data.len() <= self.data.len() + 1);")]),
  dict(prop='C13', name='append writes the value one byte early', expect='sdt::Sdt::append',
       edits=[('src/sdt.rs', "        self.write(orig_length, value);", "        self.write(orig_length - 1, value);")]),
